@@ -373,6 +373,7 @@ func runC18(e *Engine, r *Report) {
 	ruleElectionMessageGuard(e, r)
 	ruleHintVoting(e, r)
 	ruleSingleNodeQuorum(e, r)
+	ruleSelfRemoved(e, r)
 }
 
 func itoa(i int) string {
